@@ -287,9 +287,12 @@ func genAggregateSelect(t *rapid.T, c *GenCtx, st *Stmt, o SelOpts) {
 		case 3:
 			e = Call("strlen", rapid.SampledFrom([]*Node{Key(), Value()}).Draw(t, "groupLenArg"))
 		case 4:
-			if c.Kind == KInt {
+			switch {
+			case c.Kind == KInt:
 				e = Call("int", Value())
-			} else {
+			case c.Kind == KFloat && c.MixedNumeric:
+				e = Call("float", Value()) // a float-valued group column
+			default:
 				e = Call("strlen", Key())
 			}
 		default:
